@@ -250,6 +250,11 @@ def replay_case(r, workdir):
     rc, out, err, _s, to = run_cmd([exe] + [str(a) for a in r.get("args", [])], timeout=600, env=env)
     if to:
         return None, "inconclusive (timeout)"
+    if r["mode"] == "pyjudge":
+        import importlib
+        mod, fn = r["judge"].split(":")
+        bad, msg = getattr(importlib.import_module(mod), fn)(r["params"], rc, out, err)
+        return bad, msg
     if "stdout" in r:
         bad = (out != r["stdout"])
         return bad, "stdout %r expected %r" % (out[:300], r["stdout"][:300])
